@@ -34,6 +34,7 @@ RULE = ('cases = (handler settings errors/retries/timeout/backoff x script of wh
         'non-trivial iff the script contains >= 1 non-success outcome; distinct by (driver, settings, script, schedule)')
 
 HEADER = fw.STD_HEADER + 'From KV Require Import Model.Outcome Model.Attempts.\n'
+HEADER_DEEP = HEADER + 'From KV Require Import Model.AttemptsApply Model.AttemptsBatch.\n'
 
 Q = 125  # the time quantum, ms
 
@@ -390,7 +391,7 @@ def part_exec(ctx: fw.Ctx) -> None:
     K.load()
     ex = K.execution
     cases: list[fw.Case] = []
-    T, d, b = 2000, 500, 750
+    T, d, b = 2500, 500, 750      # T is not a whole number of seconds: any rounding of the runtime shows
     modes = [(None, 'T'), (None, 'I'), (None, 'P'), ('T', 'T'), ('I', 'T'), ('P', 'I')]
     acts = [('ok',), ('perm',), ('timeoutE',), ('retriesE',), ('arb',), ('temp', None), ('temp', 0), ('temp', d), ('temp', -250),
             ('child', None), ('child', 0), ('child', d)]
@@ -942,6 +943,7 @@ def part_subhandlers(ctx: fw.Ctx) -> None:
     n = ctx.scale(100, 1500)
     env = c_env('T', DEFAULT_BACKOFF)
     cases = []
+    raise_cases: list[fw.Case] = []
     for i in range(n):
         if too_many_hangs(ctx):
             break
@@ -980,6 +982,7 @@ def part_subhandlers(ctx: fw.Ctx) -> None:
             initial=None, deleted=None, requires_finalizer=None, reason=K.causes.Reason.CREATE, **RESOURCE_KW,
             **handler_kwargs(ph, make_parent())))
         settings = settings_with(DEFAULT_BACKOFF)
+        storage = settings.persistence.progress_storage
         raw = {'apiVersion': 'kopf.dev/v1', 'kind': 'Kex', 'metadata': {'name': 'n', 'namespace': 'ns', 'uid': 'u'}, 'spec': {'x': 1}}
         t0 = r.choice([1000, 50000])
         wall, origin = t0, 0
@@ -987,10 +990,34 @@ def part_subhandlers(ctx: fw.Ctx) -> None:
         for step in range(40):
             if r.random() < 0.3:
                 origin = wall - r.choice([0, 125, 1000])
+            nparent = len(parent_calls)
             try:
                 delays, raw, end = one_cycle(reg, settings, raw, wall, origin, lifecycle=lifecycle)
             except CycleHang:
                 break
+            # D:sub_raise — the parent's record after a batch of its sub-handlers against [sub_parent_delayed]
+            prec = storage.fetch(key='chg', body=K.bodies.Body(raw))
+            if len(parent_calls) > nparent and prec is not None and parent_calls[-1][2] is not None:
+                te = parent_calls[-1][2]
+                kids = []
+                for hid in subs:
+                    rf = rec_fields(storage.fetch(key=hid, body=K.bodies.Body(raw)))
+                    if rf is not None:
+                        kids.append({'active': True, 'started': rf['started'], 'stopped': rf['stopped'], 'delayed': rf['delayed'],
+                                     'retries': rf['retries'] or 0, 'success': bool(rf['success']), 'failure': bool(rf['failure'])})
+                pf = rec_fields(prec)
+                ctx.count('sub_raise', 'children done' if all(k['success'] or k['failure'] for k in kids) else
+                          'children pending, delay' if pf['delayed'] is not None else 'children pending, no delay')
+                raise_cases.append(fw.Case(
+                    f"oz_eqb (sub_parent_delayed {cq.cZ(te)} {cq.clist(c_hstate(k) for k in kids)}) {coz(pf['delayed'])} "
+                    f"&& Bool.eqb (match sub_raise {cq.cZ(te)} {cq.clist(c_hstate(k) for k in kids)} with ROk => true | _ => false end) {cq.cbool(bool(pf['success']))}",
+                    {'driver': 'subhandlers', 'at': te, 'children': kids, 'parent_record': pf},
+                    diag=f'sub_raise {cq.cZ(te)} {cq.clist(c_hstate(k) for k in kids)}'))
+                # the property for the parent: re-entered not before its first pending sub-handler is due
+                pend = [k for k in kids if not (k['success'] or k['failure'])]
+                if pend and pf['delayed'] is not None and pf['delayed'] < min((k['delayed'] or te) for k in pend):
+                    ctx.fail('parent handler scheduled before any of its pending sub-handlers is due', {'children': kids, 'parent_record': pf},
+                             sig='retry-too-soon')
             if not delays:
                 finished = True
                 break
@@ -1025,6 +1052,7 @@ def part_subhandlers(ctx: fw.Ctx) -> None:
             cases.append(fw.Case(term, {**case, 'entries': calls, 'parent_entries': [tuple(p) for p in parent_calls]},
                                  diag=f'option_map (map obs_of) (entries_of {env} {c_cfg(h)} {cq.cZ(started)} {cq.clist(ticks)})'))
     ctx.differential('subhandlers', HEADER, cases, shard=150)
+    ctx.differential('sub_raise', HEADER_DEEP, raise_cases, shard=300)
     ctx.cov['traces_validated_against_impl'] += len(cases)
 
 
@@ -1038,6 +1066,7 @@ def part_multi_activity(ctx: fw.Ctx) -> None:
     n = ctx.scale(100, 1500)
     env = c_env('T', DEFAULT_BACKOFF)
     cases: list[fw.Case] = []
+    batch_cases: list[fw.Case] = []
     for i in range(n):
         if too_many_hangs(ctx):
             break
@@ -1109,6 +1138,19 @@ def part_multi_activity(ctx: fw.Ctx) -> None:
             ctx.correspondence_break('T:multi-activity', {'what': 'entries could not be attributed to the batches seen by the lifecycle callback',
                                                           'case': case_base})
             continue
+        # D:batch — the whole multi-handler loop incl. the lifecycle against Model/AttemptsBatch.v [mact_trace]
+        lc = {'all_at_once': 'LAllAtOnce', 'one_by_one': 'LOneByOne', 'asap': 'LAsap'}[base.__name__]
+        hs_term = cq.clist(cq.cpair(c_cfg(hs[nm][0]), c_script(hs[nm][1])) for nm in names)
+        b_term = cq.clist(f"({cq.cZ(b['at'])}, {cq.clist(cq.cnat(names.index(x)) for x in b['chosen'])})" for b in batches)
+        o_term = cq.clist(c_obs(obs[nm]) for nm in names)
+        ctx.count('batch_size', str(max((len(b['chosen']) for b in batches), default=0)))
+        ctx.count('batch_offered_not_chosen', str(min(4, sum(len(b['todo']) - len(b['chosen']) for b in batches))))
+        if verdict in ('success', 'failure'):
+            batch_cases.append(fw.Case(
+                f'mact_matches {cq.cnat(len(batches) + 3)} {env} {lc} {cq.cZ(t0)} {hs_term} {b_term} {o_term}',
+                {**case_base, 'batches': [{k: v for k, v in b.items() if k != 'states'} for b in batches],
+                 'entries': {nm: obs[nm] for nm in names}},
+                diag=f'mact_trace {cq.cnat(len(batches) + 3)} {env} {lc} {cq.cZ(t0)} (bs_slots (binit {cq.cZ(t0)} {hs_term}))'))
         any_failure = False
         for nm in names:
             h, script = hs[nm]
@@ -1132,16 +1174,20 @@ def part_multi_activity(ctx: fw.Ctx) -> None:
             if (verdict == 'failure') != any_failure:
                 ctx.fail(f'activity ended with {verdict}, the property prescribes {"failure" if any_failure else "success"}', case_base, sig='verdict')
     ctx.differential('multi_activity', HEADER, cases, shard=150)
-    ctx.cov['traces_validated_against_impl'] += len(cases)
+    ctx.differential('batch', HEADER_DEEP, batch_cases, shard=100)
+    ctx.cov['traces_validated_against_impl'] += len(cases) + len(batch_cases)
 
 
 # --------------------------------------------------------------------------------------
 
 def run_parts(ctx: fw.Ctx) -> None:
+    from kv.props import c11_loop
     part_exec(ctx)
     part_state(ctx)
     part_drivers(ctx)
     part_cycles(ctx)
+    c11_loop.part_apply(ctx)
+    c11_loop.part_closed(ctx)
     part_subhandlers(ctx)
     part_multi_activity(ctx)
 
@@ -1149,7 +1195,7 @@ def run_parts(ctx: fw.Ctx) -> None:
 def run(ctx: fw.Ctx) -> int:
     ctx.matchers = {}          # F9 (timer reset after a final failure) is fixed in kopf (e01f313): a violation again
     ctx.proofs()
-    ok, logtxt = fw.build_models(['Model/Outcome.v', 'Model/Attempts.v'])
+    ok, logtxt = fw.build_models(['Model/Outcome.v', 'Model/Attempts.v', 'Model/AttemptsApply.v', 'Model/AttemptsBatch.v'])
     if not ok:
         ctx.correspondence_break('model build', logtxt[-1500:])
         return ctx.finish(RULE)
